@@ -16,7 +16,7 @@ RULE = ("slots = every string leaf and every name-bearing map key of the base do
         "hostile classes wrapped in canary letters; quick: every (slot, payload) single with setup metadata; thorough: also all "
         "metadata flavours x docstrings_on_attributes x literal_enums and all pairs of slots for the opener/closer payloads; plus colliding-sibling names (the generator's conflict-fallback spelling), literal_enums for enum/const/default slots, request media types carrying parameters (2 stems x every payload), date / date-time defaults with 17 separator characters; oracle: "
         "differential against the benign twin (string-erased ASTs equal), marker-name absence, TOML validity, executed "
-        "character-for-character recovery; non-trivial = both documents were generated and compared")
+        "character-for-character recovery; non-trivial = both documents were generated and compared; runs of 3/4/5/7 double quotes, names under the 3.1 single-entry type-list notation")
 FLOOR = 0.5
 ASSUMPTIONS = ["Python's ast decides what is code", "hostile characters are disjoint from \\w and from the generator's delimiters, so twin and hostile documents sanitise to the same identifiers"]
 
